@@ -137,11 +137,16 @@ def exVal : Value :=
 example : schemaOKb exEnv = true := by decide
 example : ValOK exVal := by simp [exVal, ValOK, ValOKKvs, ValOKList, KeysNodup]
 example : ∃ kvs, encode (wcfg exEnv) 6 [] (.ref "R") exVal = .ok (.obj kvs) := ⟨_, rfl⟩
+def exKvs : List (Bytes × Doc) :=
+  match encode (wcfg exEnv) 6 [] (.ref "R") exVal with
+  | .ok (.obj kvs) => kvs
+  | _ => []
+
 example (F : FloatLaws) :
     unmarshalRor2 (rcfg exEnv true 0) (.ref "R")
-        (renderRor2 (escapeWith tablesV2.querySafe) (.obj _)) =
+        (renderRor2 (escapeWith tablesV2.querySafe) (.obj exKvs)) =
       .ok (norm exEnv 6 (.ref "R") exVal) { rest := [], start := false, missing := [] } :=
-  c01_ror2_roundtrip_query tablesV2 c01_tables_ok_v2 F exEnv (by decide) 0 6 _ exVal _
+  c01_ror2_roundtrip_query tablesV2 c01_tables_ok_v2 F exEnv (by decide) 0 6 _ exVal exKvs
     (by simp [exVal, ValOK, ValOKKvs, ValOKList, KeysNodup]) rfl
 
 end Restli.Codec
